@@ -788,6 +788,15 @@ for _n in _c10.RAW:
                         for i in range(len(_c10.RAW[_n][1])) for sk in _c10.RAW[_n][3]],
                        _prox, cls=_n))
 
+# QuadraticForm over operators of every return convention (fresh element, the input itself, a view
+# of the input), with and without vector
+SPECS.append(OSpec('QuadraticForm',
+                   [dict(A=a, space=s, vec=v) for a in ('A', 'I', 'V', 'S2', 'M')
+                    for s in ('rn3', 'ud3') for v in (1, 0)] + [dict(A=None, space='rn3', vec=1)],
+                   lambda o: odl.solvers.QuadraticForm(
+                       None if o['A'] is None else _leaf(o['A'], _sp(o['space'])),
+                       el(_sp(o['space']), 1) if o['vec'] else None, 0.5)))
+
 BY_NAME = dict((s.name, s) for s in SPECS)
 
 # classes that cannot be instantiated here, with the reason (reported by C03, never a violation)
